@@ -36,6 +36,7 @@ func (e *Engine) verifyUnit(fn *ssa.Function, ct *FuncContract, alias []string, 
 	}()
 	x := &Exec{vc: vc, eng: e}
 	fr := x.newFrame(fn, ct, true, 0)
+	x.top = fr
 	fr.unit = u.Name
 	fr.paramAlias = alias
 	nEpoch++
